@@ -759,7 +759,8 @@ Proof. destruct o; simpl; try contradiction; auto. intros _ H. apply ptr_ok_same
 
 Theorem evaluate_EV f args st : Good c st -> Jt st -> EV c (obj_ok c) st (evaluate c parse f args st).
 Proof.
-  intros G J. unfold evaluate. destruct (lookup f (fns st)) as [[ps body]|]; [|apply EV_err; assumption].
+  intros G J. unfold evaluate. destruct (lookup f (fns st)) as [[ps0 body]|]; [|apply EV_err; assumption].
+  generalize (map (resolve st) ps0). intros ps. unfold evaluate_call.
   set (inner := (doR (st1, _) <- eval_args parse ps args st;
          if mem_z f (active st1) then errR st1 7
          else
@@ -862,7 +863,8 @@ Lemma unit_S fuel e st : unit_ c (S fuel) e st =
           else retR st (OStr (zlen bs, a))
       | ELit None bs => doR (st1, p) <- store c st bs; retR st1 (OStr p)
       | ENum t z => retR st (ONum t z)
-      | EVar n =>
+      | EVar n0 =>
+          let n := resolve st n0 in
           if is_strname n then retR st (if mem_key n (scal st) then OVar n else OStr (0, 0))
           else retR st (ONum (nty n) (match lookup n (scal st) with Some (SNum z) => z | _ => 0 end))
       | EArr n i => doR (st1, _) <- check_dim c st n i; retR st1 (OArr n i)
@@ -1212,9 +1214,9 @@ Proof.
       * apply EV_ret; auto. simpl. intros Hv. simpl in Hv. apply Z.leb_gt in Ea. lia.
     + ev_done.
   - ev_done.
-  - destruct (is_strname n) eqn:En.
-    + apply EV_ret; auto. unfold mem_key. destruct (lookup n (scal st)) as [v|] eqn:El; [|apply str_ok_zero].
-      simpl. split; [exact En|]. destruct (g_scal _ _ G n v El En) as (p & -> & _). eauto.
+  - cbv zeta. generalize (resolve st n). intros n'. destruct (is_strname n') eqn:En.
+    + apply EV_ret; auto. unfold mem_key. destruct (lookup n' (scal st)) as [v|] eqn:El; [|apply str_ok_zero].
+      simpl. split; [exact En|]. destruct (g_scal _ _ G n' v El En) as (p & -> & _). eauto.
     + ev_done.
   - eapply EV_bind; [apply EV_check_dim; assumption|]. intros st1 [] G1 J1 Hok. apply EV_ret; assumption.
   - apply Hp; assumption.
